@@ -17,3 +17,7 @@ def c08_paused_overrun(rp):
 
 def c08_zero_pktsize(rp):
     return rp.get('kind') == 'zero_pktsize'
+
+
+def c12_sparse_trailing_hole(rp):
+    return rp.get('class') == 'sparse_trailing_hole'
